@@ -211,7 +211,9 @@ def analyse(repo, rep, mod, fn, cat_of_const, names, ALL_CATS):
             a0 = norm(s.args[0]) if s.args else "?"
             a1 = norm(strip_cast(s.args[1])) if len(s.args) > 1 else "?"
             src = cx_defs.get(a1, a1)
-            okc = a0 == "rsp" and src == "context.context_id"
+            # the request's own id: the SCP's context parameter, or (Association._c_store_scp, which has
+            # no context parameter) the id the request primitive arrived with
+            okc = a0 == "rsp" and src in ("context.context_id", "req._context_id")
             rep.check(okc, "context", fq, enclosing(s, (ast.stmt,)), f"the response must be `rsp` sent on the request's context (got {a0!r} on {src!r})", mod=mod, node=s)
 
     # ---- handler results destructured outside try/attempt ----------------------
